@@ -35,10 +35,10 @@ def PtrInv {α} : CState α → Prop
 /-- a Go slice of records has fewer than 2^63 - 1 elements (`RecordLen()` is an `int`, a Record is 24 bytes) -/
 def LenOK {α} (rows : List α) : Prop := (rows.length : Int) < maxI64
 
-/-- the Go addition `c.index + number` does not leave int64 -/
-def NoOverflow (p : Pos) (index : Int) : Prop :=
+/-- the number of FETCH RELATIVE is a Go `int` (`int(i.Raw())` in FetchCursor); ABSOLUTE needs no bound -/
+def NumberOK (p : Pos) : Prop :=
   match p with
-  | .relative n => inI64 (index + n)
+  | .relative n => inI64 n
   | _ => True
 
 def ScopeInv {α} (s : Scope α) : Prop := ∀ p ∈ s, PtrInv p.2
@@ -138,13 +138,56 @@ theorem fetch_cases {α} (rows : List α) (index : Int) (f : Bool) (p : Pos) (m 
     · right; right
       exact ⟨by omega, by omega, by simp [h1, h2]⟩
 
-theorem moveIndex_eq_target {α} (rows : List α) (index : Int) (p : Pos)
-    (hinv : -1 ≤ index ∧ index ≤ rows.length) (hlen : LenOK rows) (hno : NoOverflow p index) :
-    moveIndex p index (recordLen rows) = target p index rows.length := by
+/-- the new pointer the code computes (wrapped / saturated int64 arithmetic) falls on the same side of
+    the result as the mathematical target, and equals it inside the result -/
+theorem moveIndex_vs_target {α} (rows : List α) (index : Int) (p : Pos)
+    (hinv : -1 ≤ index ∧ index ≤ rows.length) (hlen : LenOK rows) (hn : NumberOK p) :
+    (moveIndex p index (recordLen rows) < 0 ↔ target p index rows.length < 0) ∧
+    (recordLen rows ≤ moveIndex p index (recordLen rows) ↔ (rows.length : Int) ≤ target p index rows.length) ∧
+    (0 ≤ moveIndex p index (recordLen rows) → moveIndex p index (recordLen rows) < recordLen rows →
+      moveIndex p index (recordLen rows) = target p index rows.length) := by
   unfold LenOK maxI64 at hlen
-  cases p <;> simp only [moveIndex, target, recordLen]
-  case relative n => exact wrap64_of_inI64 hno
-  all_goals (apply wrap64_of_inI64; unfold inI64 minI64 maxI64; omega)
+  cases p
+  case relative n =>
+    simp only [NumberOK, inI64, minI64, maxI64] at hn
+    have h1 : wrap64 (9223372036854775807 - n) = 9223372036854775807 - n ∨ n < 0 := by
+      by_cases h : n < 0
+      · right; exact h
+      · left; apply wrap64_of_inI64; unfold inI64 minI64 maxI64; omega
+    have h2 : wrap64 (-9223372036854775808 - n) = -9223372036854775808 - n ∨ 0 ≤ n := by
+      by_cases h : 0 ≤ n
+      · right; exact h
+      · left; apply wrap64_of_inI64; unfold inI64 minI64 maxI64; omega
+    simp only [moveIndex, target, recordLen]
+    split
+    · rename_i hA
+      rcases h1 with h1 | h1
+      · rw [h1] at hA; omega
+      · omega
+    · rename_i hA
+      split
+      · rename_i hB
+        rcases h2 with h2 | h2
+        · rw [h2] at hB; omega
+        · omega
+      · rename_i hB
+        have hw : wrap64 (index + n) = index + n := by
+          apply wrap64_of_inI64
+          unfold inI64 minI64 maxI64
+          rcases h1 with h1 | h1 <;> rcases h2 with h2 | h2
+          · rw [h1] at hA; rw [h2] at hB; omega
+          · rw [h1] at hA; omega
+          · rw [h2] at hB; omega
+          · omega
+        rw [hw]; omega
+  all_goals
+    simp only [moveIndex, target, recordLen]
+    first
+      | omega
+      | (simp; done)
+      | (have hw : ∀ x : Int, -9223372036854775808 ≤ x → x ≤ 9223372036854775807 → wrap64 x = x := by
+           intro x h1 h2; apply wrap64_of_inI64; unfold inI64 minI64 maxI64; omega
+         rw [hw _ (by omega) (by omega)]; omega)
 
 /-! ## the cursor map -/
 
